@@ -403,7 +403,7 @@ def scenarios(quick: bool) -> list[dict]:
         _scn("run:tag@D,stop@D/k0", RUNNING, 0, [("tag", "D"), ("stop", "D")], 1.0, 0.5, deep),
         _scn("run:tag@D,stop@D/k3", RUNNING, 3, [("tag", "D"), ("stop", "D")], 1.0, 0.5, 2),
         _scn("run:tag@F,stop@U/k0", RUNNING, 0, [("tag", "F"), ("stop", "U")], 1.0, 0.5, 2),
-        _scn("run:tag@F,stop@U/k1", RUNNING, 1, [("tag", "F"), ("stop", "U")], 1.0, 0.5, deep),
+        _scn("run:tag@F,stop@U/k1", RUNNING, 1, [("tag", "F"), ("stop", "U")], 1.0, 0.5, 2),
         _scn("run:tag@F,stop@R/k0", RUNNING, 0, [("tag", "F"), ("stop", "R")], 1.0, 0.5, 2),
         _scn("run:tag@D,stop@X/k0", RUNNING, 0, [("tag", "D"), ("stop", "X")], 1.0, 0.5, 2),
         _scn("run:stop@U2/k1", RUNNING, 1, [("stop", "U2")], 1.0, 0.5, 2),
@@ -423,7 +423,8 @@ def scenarios(quick: bool) -> list[dict]:
         trigs = [(a,) for a in OUTAGE_STATES] if len(evs) == 1 else \
                 [(a, b) for a in OUTAGE_STATES for b in OUTAGE_STATES if order[a] <= order[b]]
         for tr in trigs:
-            for k in ((0, 3) if pre else (0, 2)):
+            ks = (0,) if evs in (["stop", "start:r2"], ["start:r1", "stop"]) else (0, 3) if pre else (0, 2)
+            for k in ks:
                 during = list(zip(evs, tr))
                 name = f"{pname}:" + ",".join(f"{e.replace('start:r', 'start')}@{t}" for e, t in during) + f"/k{k}"
                 if name not in have:
